@@ -1367,8 +1367,8 @@ pub fn property() -> Property {
                 },
             },
             Sub { name: "depth_sequences_exhaustive", kind: Kind::Index { count: seq_count, exhaustive: true, f: depth_sequences_exhaustive } },
-            Sub { name: "random_trees", kind: Kind::Tape { max_len: 3000, quick: 6_000, thorough: 200_000, f: random_trees } },
-            Sub { name: "huffman", kind: Kind::Tape { max_len: 600, quick: 10_000, thorough: 300_000, f: huffman } },
+            Sub { name: "random_trees", kind: Kind::Tape { max_len: 3000, quick: 18_000, thorough: 400_000, f: random_trees } },
+            Sub { name: "huffman", kind: Kind::Tape { max_len: 600, quick: 30_000, thorough: 600_000, f: huffman } },
         ],
         known: vec![],
     }
